@@ -487,7 +487,7 @@ def split_diff(stdout_text):
 
 def compare_run(root, opts, infos, pred, obs):
     """-> dict category -> list of problem strings"""
-    probs = {"write": [], "stdout": [], "desc": [], "exit": [], "report": [], "unmatched": []}
+    probs = {"write": [], "stdout": [], "desc": [], "exit": [], "report": [], "unmatched": [], "diffapply": []}
     writes = {o[1]: o[2] for o in pred["outs"] if o[0] == "w"}
     dry = "diff" in opts or "print" in opts
     # disk
@@ -543,7 +543,11 @@ def compare_run(root, opts, infos, pred, obs):
             orig = by_prov[name]["content"].decode("utf-8", "surrogateescape")
             res = cl.apply_unified_diff(orig, body)
             if res is None or res.rstrip("\n") != bytes_.rstrip("\n"):
-                probs["stdout"].append(f"{name}: applying the printed diff to the original does not give the bytes --print-only prints")
+                res2 = cl.apply_unified_diff(orig.replace("\r\n", "\n"), body) if "\r\n" in orig else None
+                if res2 is not None and res2.rstrip("\n") == bytes_.rstrip("\n"):
+                    probs["diffapply"].append(f"{name}: CRLF-ORIGINAL: the printed diff omits the carriage returns of the original's lines, so it does not apply to the original (it applies to the original without them and then gives the --print-only bytes)")
+                else:
+                    probs["diffapply"].append(f"{name}: applying the printed diff to the original does not give the bytes --print-only prints")
         else:
             if so[pos:].strip():
                 probs["stdout"].append(f"unexpected extra output on stdout: {so[pos:pos+80]!r}")
@@ -689,6 +693,9 @@ def c06(ctx):
                 triples.append((sc.patches, src, None))
     api_vs_cli(ctx, triples[: (80 if ctx.tier == "quick" else 2000)], "C06 (no change applies: the API must return the input bytes)")
 
+def rng_for(key, seed):
+    return random.Random(f"{seed}:{key}")
+
 def api_vs_cli(ctx, triples, what):
     """triples: (patches, src, expected bytes or None for 'input unchanged')"""
     cases = [{"id": f"a{i}", "patches": p, "src": s} for i, (p, s, e) in enumerate(triples) if len(p) == 1]
@@ -720,12 +727,33 @@ def c12(ctx):
         return []
     c12_body(ctx, post)
     api_vs_cli(ctx, triples[: (60 if ctx.tier == "quick" else 2000)], "C12")
+    # multi-change patches on comment-rich files: the library must give the bytes --print-only prints
+    rng = random.Random(ctx.seed + 12)
+    chains = [c for c in gen_cases(ctx, "c09", 120 if ctx.tier == "quick" else 2500, ctx.seed + 12, golden=False) if c.get("chain")]
+    chains.append({"id": "nested", "chain": ["@@\n@@\n-foo(...)\n+bar(...)\n", "@@\nvar x, y expression\n@@\n-sum(x, y)\n+x + y\n"],
+                   "src": "package a\n\nfunc f() {\n\tfoo(sum(1, // one\n\t\t2), 3)\n}\n"})
+    def cli_bytes(c):
+        src = c["src"]
+        if c["id"] != "nested":
+            src = inject_comments(rng_for(c["id"], ctx.seed), c["src"]) or c["src"]
+        d = ctx.scratch("c12m")
+        cl.write_tree(d, {"a.go": src, "all.patch": "\n".join(c["chain"])})
+        code, out, err = cl.gopatch(ctx.gopatch, d, ["-p", "all.patch", "--print-only", "a.go"])
+        shutil.rmtree(d, ignore_errors=True)
+        return (["\n".join(c["chain"])], src, out.decode("utf-8", "surrogateescape")) if code == 0 else None
+    with ThreadPoolExecutor(max_workers=8) as ex:
+        multi = [t for t in ex.map(cli_bytes, chains[: (50 if ctx.tier == "quick" else 1500)] + chains[-1:]) if t]
+    ctx.count("multi_change_api_vs_cli", len(multi))
+    api_vs_cli(ctx, multi, "C12 (several changes in one patch)")
 
 def c12_body(ctx, post):
     cli_family(ctx, {"odd", "generated"},
                [[], ["print"], ["diff"], ["diff", "v"], ["print", "si"], ["diff", "sg"], ["si"], ["print", "sg", "si"], ["v"],
                 ["diff", "print"], ["diff", "print", "v", "sg"], ["diff", "print", "si"]],
-               {"write", "stdout", "desc"}, 25, 500, post=post)
+               {"write", "stdout", "desc", "diffapply"}, 25, 500, post=post)
+    # F17: a patched file with CRLF line endings
+    sc = Scenario("f17", ["@@\n@@\n-zzz(1)\n+yyy(1)\n"], {"crlf.go": "package odd\r\n\r\nfunc crlf() {\r\n\tzzz(1)\r\n}\r\n"}, "crlf-matched")
+    run_scenarios(ctx, [sc], [["diff"], ["print"], []], {"write", "stdout", "desc", "diffapply"}, None)
 
 def matching_cases(ctx, cases, want, rng):
     """cases whose patch rewrites their own source (observed by a solo run)"""
@@ -763,7 +791,11 @@ def c18(ctx):
                 src = src + "\n// Code generated by x. DO NOT EDIT.\n"
             else:
                 src = hdr + src
-            sc = Scenario(f"b{bi}-{name}", base["patches"], {"g/" + name.replace("-", "_") + ".go": src, "plain.go": base["src"]},
+            files = {"g/" + name.replace("-", "_") + ".go": src, "plain.go": base["src"]}
+            if hdr is not None:
+                # the same header on a file in which nothing matches
+                files["g/u_" + name.replace("-", "_") + ".go"] = hdr + "package q\n\nfunc nothing() { var zzz_unmatched_token int; _ = zzz_unmatched_token }\n"
+            sc = Scenario(f"b{bi}-{name}", base["patches"], files,
                           note=f"header={name} expect_generated={isgen}")
             sc.expect = isgen
             scen.append(sc)
@@ -791,19 +823,20 @@ def c18(ctx):
             ctx.evaluations += 1
             ctx.nontrivial.add(sc.id + "+".join(opts))
             ctx.count("flags:" + "+".join(opts or ["default"]))
-            gi = [i for i in infos if i["provided"].startswith("g/")][0]
             found = []
             probs = compare_run(work, opts, infos, pred, obs)
             for c in ("write", "stdout", "desc", "unmatched", "exit"):
                 found += probs[c]
-            if "sg" in opts:
+            for gi in [i for i in infos if i["provided"].startswith("g/")]:
+                if "sg" not in opts:
+                    continue
                 # the property itself: generated <=> completely untouched
                 rel = gi["provided"]
                 touched = obs["before"].get(rel) != obs["after"].get(rel)
                 so = obs["stdout"].decode("utf-8", "replace")
-                shown = (rel in so) if "diff" in opts else False
+                shown = (rel in so) if "diff" in opts else ("zzz_unmatched_token" in so and "/u_" in rel)
                 if sc.expect and (touched or shown or any(l.startswith(rel + ":") for l in obs["stderr"].split("\n"))):
-                    found.append(f"{rel}: generated file was processed under --skip-generated")
+                    found.append(f"{rel}: generated file was processed under --skip-generated" + (" (its contents are printed)" if shown else ""))
                 if sc.expect != gi["generated"]:
                     found.append(f"{rel}: header shape {sc.note}: skip decision of the binary is {gi['generated']}")
             if len(ctx.samples) < 3:
@@ -875,6 +908,21 @@ def emitted_parse_check(ctx, contents):
     flags = r.stdout.split()
     return [contents[i][0] for i, f in enumerate(flags) if f != "1"]
 
+def _after_package(src, text):
+    head, rest = src.split("\n", 1)
+    return head + "\n\n" + text + rest
+
+FILE_DECORATIONS = [
+    ("cgo", lambda s: _after_package(s, "/*\n#include <stdio.h>\n*/\nimport \"C\"\n")),
+    ("cgo-group", lambda s: _after_package(s, "import (\n\t\"C\"\n\t\"fmt\"\n)\n\nvar _ = fmt.Sprint\n")),
+    ("dot-import", lambda s: _after_package(s, "import . \"fmt\"\n\nvar _ = Sprint\n")),
+    ("blank-import", lambda s: _after_package(s, "import _ \"embed\"\n")),
+    ("build-tag", lambda s: "//go:build linux && cgo\n// +build linux,cgo\n\n" + s),
+    ("generated-header", lambda s: "// Code generated by tool. DO NOT EDIT.\n\n" + s),
+    ("test-package", lambda s: s.replace("package a", "package a_test", 1)),
+    ("main-package", lambda s: s.replace("package a", "package main", 1) + "\nfunc main() {}\n\nfunc init() {}\n"),
+]
+
 @prop("C07")
 def c07(ctx):
     def post(ctx, sc, opts, infos, pred, obs, work):
@@ -906,6 +954,10 @@ def c07(ctx):
     scen = []
     for k, (patch, src) in enumerate(MISFIT):
         scen.append(Scenario(f"misfit{k}", [patch], {"m.go": src, "other.go": "package a\n\nfunc g() { foo(7) }\n"}, "misfit"))
+    # the same rewrites in files with features that influence how the result is post-processed
+    for k, (patch, src) in enumerate(MISFIT[: (3 if ctx.tier == "quick" else len(MISFIT))]):
+        for fname, deco in FILE_DECORATIONS:
+            scen.append(Scenario(f"misfit{k}-{fname}", [patch], {"m.go": deco(src), "other.go": "package a\n\nfunc g() { foo(7) }\n"}, "misfit in a file with " + fname))
     optsets = [[], ["si"], ["print"], ["print", "si"], ["diff"], ["diff", "si"]]
     run_scenarios(ctx, scen, optsets, {"write", "stdout", "exit"}, post)
     # a rewrite that does not parse must fail with and without import processing alike
@@ -926,7 +978,8 @@ def c07(ctx):
     run_scenarios(ctx, scen2, [[], ["si"], ["print", "si"], ["diff", "si"]], {"write", "exit"}, post)
     # library API
     api_parse_check(ctx, cases[: (100 if ctx.tier == "quick" else 1500)] +
-                    [{"id": f"misfit{k}", "patches": [p], "src": s} for k, (p, s) in enumerate(MISFIT)])
+                    [{"id": f"misfit{k}", "patches": [p], "src": s} for k, (p, s) in enumerate(MISFIT)] +
+                    [{"id": f"misfit{k}-{fn}", "patches": [p], "src": deco(s)} for k, (p, s) in enumerate(MISFIT[:3]) for fn, deco in FILE_DECORATIONS])
 
 def run_scenarios(ctx, scen, optsets, categories, post=None):
     def one(sc):
@@ -1086,6 +1139,11 @@ REPLACE_ERR = ("@@\nvar x expression\n@@\n-foo(x)\n+bar.x\n", "package a\n\nfunc
 def sig_write_fault(sig, what, payload):
     return payload.get("fault") == "fsize" and "partial" in what
 
+FAILSTEP = {"good1": "@@\nvar x expression\n@@\n-foo(x)\n+bar(x)\n", "bad": "@@\nvar x expression\n@@\n-baz(x)\n+qux.x\n",
+            "good2": "@@\n@@\n-quux(1)\n+quuz(1)\n", "bad2": "@@\nvar x expression\n@@\n-quux(1)\n+quux(x)\n"}
+FAILSTEP_SRC = "package a\n\nfunc f() {\n\tfoo(1)\n\tbaz(g(1))\n\tquux(1)\n}\n"
+FAILSTEP_ORDERS = [("bad", "good1"), ("good1", "bad"), ("good1", "bad", "good2"), ("bad2", "good1"), ("bad",)]
+
 @prop("C16")
 def c16(ctx):
     ctx.level = "proof"
@@ -1111,6 +1169,13 @@ def c16(ctx):
         files = {"b.go": "package a\n\nfunc ok() {\n\tz := foo(1)\n\t_ = z\n}\n", "m/n.go": "package a\n\nfunc ok2() { _ = foo(2) }\n"}
         files[nm] = MISFIT[0][1]
         scen.append(Scenario(f"misfit-{pos}", [MISFIT[0][0]], files, f"unparseable result at {nm}"))
+    # a failing change among changes that succeed on the same file (in one patch file and as separate patches)
+    for oi, order in enumerate(FAILSTEP_ORDERS):
+        for joined in (True, False):
+            texts = [FAILSTEP[k] for k in order]
+            patches = ["\n".join(texts)] if joined else texts
+            scen.append(Scenario(f"failstep-{oi}-{int(joined)}", patches, {"a.go": FAILSTEP_SRC, "b.go": "package a\n\nfunc ok() {\n\tfoo(3)\n}\n"},
+                                 "failing change among succeeding ones: " + ",".join(order)))
     def post(ctx, sc, opts, infos, pred, obs, work):
         out = []
         bad = [i for i in infos if (not i["parses"]) or i["apply"][0] in ("replaceerr", "formaterr")]
@@ -1266,7 +1331,7 @@ def all_paths(t, prefix=""):
 def c15(ctx):
     ctx.rule = ("directory trees (nesting up to 4; directory names incl. vendor, testdata, .git, _tmp, a.go, vendors; files incl. "
                 ".hidden.go, _under.go, non-.go names, symlinks to files and directories, dangling links, fifos) are created on disk; "
-                "argument lists mix '.', './...', sub-directories with and without '...', absolute paths, '../<cwd>/x', explicit "
+                "argument lists mix '.', './...', sub-directories with and without '...', absolute paths, '../<cwd>/x', 'd/..', 'd/../...', explicit "
                 "files (also inside excluded directories), repeats and overlaps; the processed set and order are read from the "
                 "binary's -v lines under a patch that never matches and compared with the Lean model findFiles on the same abstract "
                 "tree. Non-trivial = at least one file processed; distinct = distinct (tree, args).")
@@ -1292,7 +1357,10 @@ def c15(ctx):
         safe = lambda p: not any(isinstance(v2, tuple) for q, v2 in paths if (p + "/").startswith(q + "/") and q != p)
         cands = [".", "./...", "..." ] + [d for d in dirs if safe(d)] + [d + "/..." for d in dirs if safe(d)] + \
                 [f for f in files if safe(f)] + [os.path.join(root, d) for d in dirs[:2] if safe(d)] + \
-                [f"../{cwd_name}/" + d for d in dirs[:2] if safe(d)] + ["./" + f for f in files[:2] if safe(f)]
+                [f"../{cwd_name}/" + d for d in dirs[:2] if safe(d)] + ["./" + f for f in files[:2] if safe(f)] + \
+                [d + "/.." for d in dirs[:3] if safe(d)] + [d + "/../..." for d in dirs[:2] if safe(d)] + \
+                [d + "/../" + d2 for d in dirs[:2] for d2 in dirs[:2] if safe(d) and safe(d2) and "/" not in d2] + \
+                [os.path.join(root, d) + "/.." for d in dirs[:1] if safe(d)]
         args = [rng.choice(cands) for _ in range(rng.randint(1, 4))]
         if rng.random() < 0.05:
             args.append("does_not_exist")
@@ -1965,7 +2033,53 @@ def c10(ctx):
 
 @prop("C11")
 def c11(ctx):
-    engine_family(ctx, "c11", {"imports", "decisions"}, n_quick=500)
+    res = engine_family(ctx, "c11", {"imports", "decisions"}, n_quick=500)
+    # the same cases through the library API (which parses the file itself): its import declarations must be the model's
+    cases, want = [], {}
+    for inp, orig, impl, model, same in res:
+        if model["status"] == "ok" and any(t.startswith("k") for t in model["trace"]) and len(inp.get("patches", [])) == 1:
+            cid = f"i{len(cases)}"
+            cases.append({"id": cid, "patches": inp["patches"], "src": inp["src"]})
+            want[cid] = sorted((cl.sx_unquote(i[1]), cl.sx_unquote(i[2])) for i in (model.get("imports") or []))
+    cases = cases[: (150 if ctx.tier == "quick" else 5000)]
+    byid = {c["id"]: c for c in cases}
+    for o in run_api(ctx, cases, rep=0):
+        if o.get("parse_err") or o.get("panic") or o.get("err"):
+            continue
+        ctx.evaluations += 1
+        ctx.count("api_imports")
+        got = sorted(imports_of_source(o["out"]))
+        if got != want[o["id"]]:
+            c = byid[o["id"]]
+            ctx.violation(f"library API: import declarations of the result {got} differ from the specification {want[o['id']]}",
+                          {"input": {"patches": c["patches"], "src": c["src"]}, "api_output": o["out"][:1500]})
+
+def imports_of_source(text):
+    """(name, path) pairs of the import declarations of gofmt-formatted source"""
+    out, in_block = [], False
+    for l in text.split("\n"):
+        t = l.strip()
+        if in_block:
+            if t.startswith(")"):
+                in_block = False
+                continue
+            m = re.match(r'^(?:([\w.]+)\s+)?"([^"]*)"', t)
+            if m:
+                out.append((m.group(1) or "", m.group(2)))
+        elif t.startswith("import ("):
+            in_block = True
+        elif t.startswith("import "):
+            m = re.match(r'^import\s+(?:([\w.]+)\s+)?"([^"]*)"', t)
+            if m:
+                out.append((m.group(1) or "", m.group(2)))
+        elif t.startswith(("func ", "var ", "type ", "const ")):
+            break
+    return out
+
+@signature("crlf-original-diff")
+def sig_crlf_diff(sig, what, payload):
+    probs = payload.get("problems") or []
+    return bool(probs) and all("CRLF-ORIGINAL" in p for p in probs)
 
 # --- C09 -------------------------------------------------------------------
 @signature("paren-in-later-minus")
@@ -2084,6 +2198,9 @@ def c09(ctx):
     # a chain with a failing step
     todo.append(({"id": "failstep", "chain": ["@@\nvar x expression\n@@\n-foo(x)\n+bar(x)\n", "@@\nvar x expression\n@@\n-bar(x)\n+baz.x\n"],
                   "src": "package a\n\nfunc f() {\n\tfoo(g(1))\n}\n"}, "flags"))
+    # a failing step followed by steps that would succeed
+    for oi, order in enumerate(FAILSTEP_ORDERS):
+        todo.append(({"id": f"failstep-{oi}", "chain": [FAILSTEP[k] for k in order], "src": FAILSTEP_SRC}, hows[oi % len(hows)]))
     with ThreadPoolExecutor(max_workers=8) as ex:
         outs = list(ex.map(lambda t: chain_check(ctx, t[0], t[1]), todo))
     for (c, how), (problem, cb, sb) in zip(todo, outs):
